@@ -467,6 +467,56 @@ def dtype_rule(check):
         check.ok("DTYPE-FOLLOW", "%d flux kernels" % n, "no result buffer inherits the dtype of the input states while receiving floating-point values; built-in example: 1 truncating store reported, 2 safe twins silent")
 
 
+NARROW_FLOATS = {"float32", "float16", "single", "half", "f4", "f2", "<f4", "<f2", "csingle", "complex64"}
+
+
+def _narrow_type(e):
+    import ast
+    if isinstance(e, ast.Attribute) and e.attr in NARROW_FLOATS:
+        return e.attr
+    if isinstance(e, ast.Name) and e.id in NARROW_FLOATS:
+        return e.id
+    if isinstance(e, ast.Constant) and isinstance(e.value, str) and e.value in NARROW_FLOATS:
+        return e.value
+    return None
+
+
+def dtype_narrow(check):
+    """DTYPE-NARROW: every "to round-off" / "exactly" of the statements is about double precision, which is what the
+    library computes in.  A conversion to a narrower floating type (`.astype(np.float32)`, `dtype=np.float32`,
+    `np.float32(x)`) in the code a property depends on makes its results differ from the formulas by 1e-7 relative
+    (1e-3 for half precision): not round-off of the arithmetic the statement describes."""
+    import ast
+    pid, proj = check.pid, check.proj
+    n = bad = 0
+    for f in proj.all_functions():
+        if not in_scope(pid, f):
+            continue
+        n += 1
+        for c in ast.walk(f.node):
+            if not isinstance(c, ast.Call):
+                continue
+            t = None
+            if isinstance(c.func, ast.Attribute) and c.func.attr == "astype" and c.args:
+                t = _narrow_type(c.args[0])
+            for k in c.keywords:
+                if k.arg == "dtype":
+                    t = t or _narrow_type(k.value)
+            if t is None and _narrow_type(c.func) and c.args:
+                t = _narrow_type(c.func)
+            if t:
+                bad += 1
+                check.violation("DTYPE-NARROW", f.qualname, "`%s` (line %d) converts to %s: the values carry a relative error of %s from here on, far above the double-precision round-off the statement allows" % (unparse_(c)[:60], c.lineno, t, "1e-3" if "16" in t or "half" in t or "f2" in t else "6e-8"),
+                                "%s:%d" % (f.module.relpath, c.lineno), key="narrow-%s" % f.name)
+    if n and not bad:
+        check.ok("DTYPE-NARROW", "%d functions in scope" % n, "no conversion to single / half precision", nontrivial=False)
+
+
+def unparse_(n):
+    import ast
+    return ast.unparse(n)
+
+
 # ---------------------------------------------------------------------------------------------
 # constructor parameters that are accepted and never used: the object does not depend on what the
 # caller asked for (a keyword no longer forwarded to the base constructor).  Which property that
@@ -521,6 +571,7 @@ def ctor_params(check):
 def run(check):
     check.guarded("CTOR-PARAM", "constructors", lambda: ctor_params(check))
     check.guarded("DTYPE-FOLLOW", "flux kernels", lambda: dtype_rule(check))
+    check.guarded("DTYPE-NARROW", "scope of %s" % check.pid, lambda: dtype_narrow(check))
     check.guarded("STATE-MEMO", "scope of %s" % check.pid, lambda: state_memo(check))
     check.guarded("ALIAS", "scope of %s" % check.pid, lambda: alias_rules(check))
     check.guarded("KERNEL-POINTWISE", "kernels of %s" % check.pid, lambda: kernel_pointwise(check))
